@@ -19,7 +19,7 @@ from ..model import render_document, render_sdl, render_json
 
 RULE = ("a directory tree with the same schema under two paths, different schemas with the same base name (also one level up, reached "
         "through relative `../` paths from the drivers' working directory), documents whose first fragment is recursive in one and "
-        "plain in the other, documents nested 26-40 levels deep (every third stampede runs only those), SDL and JSON, a missing "
+        "plain in the other, documents nested 26-40 levels deep (every third stampede runs only those, 16 threads in lockstep: all threads released together before every call), SDL and JSON, a missing "
         "path, an unparsable SDL and JSON schema, an unparsable query, a query that fails validation; a pool of ~30 distinct calls "
         "(schema path x query path | query string x 3 option sets). Reference = every distinct call alone in a fresh process. "
         "Histories: random sequences of 20-200 calls in one process with failing calls interleaved; stampedes of 2..16 threads "
@@ -347,6 +347,11 @@ def main(run):
             threads.append([r.choice(hot if r.random() < 0.7 else calls) for _ in range(k)])
             sleeps.append([r.choice([0, 0, 0, 50, 150, 300]) for _ in range(k)])
         job = {"threads": threads, "sleeps_us": sleeps}
+        if si % 3 == 1:
+            # lockstep stampede over the deeply nested documents: 16 threads x 10 calls, every call released together
+            nt = 16
+            threads = [[r.choice(hot) for _ in range(10)] for _ in range(nt)]
+            job = {"threads": threads, "sleeps_us": [[0] * 10 for _ in range(nt)], "lockstep": True}
         p = Drv("stampede", json.dumps(job), 600)
         try:
             out = json.loads(p.stdout)
